@@ -666,6 +666,11 @@ def r5(prog, rep):
         values are read from D *through the same index sequence* ([D[i] for i in idxs]); D.values() is in insertion order, not in sorted order."""
         key = f"SolverWrapper._apply_pending_bound_updates:highs:{what}-aligned"
         ic, vc = core(idx_arg, c.lineno), core(val_arg, c.lineno)
+        # the two parallel queues themselves: [v.index for v in self._pending_X_vars] with self._pending_X_vals
+        if isinstance(ic, ast.ListComp) and len(ic.generators) == 1 and not ic.generators[0].ifs and norm(ic.elt) == f"{norm(ic.generators[0].target)}.index" and \
+                norm(ic.generators[0].iter).endswith("_vars") and norm(vc) == norm(ic.generators[0].iter)[:-5] + "_vals":
+            rep.ok("C12.R5", key, f"indices and values are the two parallel queues `{norm(ic.generators[0].iter)}` / `{norm(vc)}`", f.loc(c))
+            return
         if not (isinstance(ic, ast.Call) and dotted(ic.func) == "sorted" and ic.args and isinstance(ic.args[0], ast.Name)):
             if isinstance(ic, ast.Call) and isinstance(ic.func, ast.Attribute) and ic.func.attr == "keys" and isinstance(vc, ast.Call) and \
                     isinstance(vc.func, ast.Attribute) and vc.func.attr == "values" and norm(ic.func.value) == norm(vc.func.value):
